@@ -363,3 +363,50 @@ fn k2_body(n: usize) {
 harness! { fn c13_k2_keyword_lookup_eq_scan_len2() unwind(124) { k2_body(2) } }
 harness! { fn c13_k2_keyword_lookup_eq_scan_len3() unwind(124) { k2_body(3) } }
 harness! { fn c13_k2_keyword_lookup_eq_scan_len4() unwind(124) { k2_body(4) } }
+
+/// Z2: the real `consume_to_eof` (end of an unterminated comment/directive): the token ends
+/// where the trailing blanks (<= U+0020, U+3000) begin, on a character boundary (shapes as W1,
+/// preceded by `{x`).
+fn z2_body(shape: &'static [u8]) {
+    let mut v = Vec::with_capacity(20);
+    v.push(b'{');
+    v.push(b'x');
+    let mut k = 0;
+    while k < shape.len() {
+        match shape[k] {
+            b's' => v.push(pick(&[b' ', b'\t', b'\n', b'a', 0x7f])),
+            b'I' => v.extend_from_slice("\u{3000}".as_bytes()),
+            b'e' => v.extend_from_slice("\u{e9}".as_bytes()),
+            _ => v.extend_from_slice("\u{a0}".as_bytes()),
+        }
+        k += 1;
+    }
+    let text = leak_str(v);
+    let s = text.as_bytes();
+    let (end, ty) = lx::consume_to_eof(text, RawTokenType::Comment(CommentKind::MultilineBlock));
+    assert!(ty == RawTokenType::Comment(CommentKind::MultilineBlock));
+    // reference: strip blanks from the end, character by character
+    let mut want = s.len();
+    loop {
+        if want >= 1 && s[want - 1] <= 0x20 {
+            want -= 1;
+        } else if want >= 3 && s[want - 3] == 0xE3 && s[want - 2] == 0x80 && s[want - 1] == 0x80 {
+            want -= 3;
+        } else {
+            break;
+        }
+    }
+    assert!(end == want, "unterminated token does not end where its trailing blanks begin");
+    assert!(text.is_char_boundary(end));
+    cover!(end < s.len(), "trimmed_something");
+}
+macro_rules! z2 { ($($name: ident => ($sh: expr)),*) => {$(
+    harness! { fn $name() unwind(12) { z2_body($sh) } }
+)*}}
+z2! {
+    c13_z2_consume_to_eof_sIs => (b"sIs"),
+    c13_z2_consume_to_eof_ssI => (b"ssI"),
+    c13_z2_consume_to_eof_sIIs => (b"sIIs"),
+    c13_z2_consume_to_eof_sNs => (b"sNs"),
+    c13_z2_consume_to_eof_ses => (b"ses")
+}
